@@ -22,8 +22,10 @@ structure St where
   cbs : Cbs
   evs : List String
   ok : Bool
+  /-- detsched's `clock_tick_ns`: every clock read first advances virtual time by this much -/
+  tick : Nat
 
-def St.empty : St := { n := 0, progs := [], cbs := [], evs := [], ok := false }
+def St.empty : St := { n := 0, progs := [], cbs := [], evs := [], ok := false, tick := 0 }
 
 def parseProg : List String → Option (List Op)
   | [] => some []
@@ -56,11 +58,14 @@ def localC : CPc → Bool
   | .sBody _ _ | .cBody _ | .dDrainQ | .dDrainC | .dCleanUp | .dSweep | .dcbBody _ _ | .dFree => true
   | _ => false
 
-def runLocalS : Nat → Sys → Sys
+/-- the thread-local steps after a sync operation; the two clock reads of the loop (`readClock`,
+`predClock`) see a clock that has been advanced by `tick` (an environment step of the model) -/
+def runLocalS (tick : Nat) : Nat → Sys → Sys
   | 0, s => s
   | f + 1, s => if localS s.st.pc then
+      let s := if s.st.pc == .readClock || s.st.pc == .predClock then { s with clock := s.clock + tick } else s
       match stepSched Cfg.fixed s with
-      | some s' => runLocalS f s'
+      | some s' => runLocalS tick f s'
       | none => s
     else s
 
@@ -75,7 +80,7 @@ def runLocalC (i : Nat) : Nat → Sys → Sys
       else s
     | none => s
 
-def evSched (s : Sys) (kind : String) (aux : Int) : Sys × String :=
+def evSched (tick : Nat) (s : Sys) (kind : String) (aux : Int) : Sys × String :=
   if kind == "spurious" then
     match stepSpurious s with
     | some s' => (s', "S spurious")
@@ -95,7 +100,7 @@ def evSched (s : Sys) (kind : String) (aux : Int) : Sys × String :=
     | none => (s, "S DESYNC " ++ toString (repr s.st.pc))
     | some l =>
       match stepSched Cfg.fixed s with
-      | some s' => (runLocalS 100000 s', "S " ++ l)
+      | some s' => (runLocalS tick 100000 s', "S " ++ l)
       | none => (s, "S " ++ l ++ " DISABLED")
 
 def evClient (s : Sys) (i : Nat) (kind : String) (aux : Int) : Sys × String :=
@@ -126,7 +131,7 @@ def evClient (s : Sys) (i : Nat) (kind : String) (aux : Int) : Sys × String :=
       | some s' => (runLocalC i 100000 s', s!"C{i} " ++ l)
       | none => (s, s!"C{i} " ++ l ++ " DISABLED")
 
-def procEv (acc : Sys × List String) (tok : String) : Sys × List String :=
+def procEv (tick : Nat) (acc : Sys × List String) (tok : String) : Sys × List String :=
   let (s, out) := acc
   match tok.splitOn "." with
   | [who, kind, aux, time] =>
@@ -134,7 +139,7 @@ def procEv (acc : Sys × List String) (tok : String) : Sys × List String :=
     | some aux, some time =>
       let s := if time > s.clock then { s with clock := time } else s
       let (s', line) :=
-        if who == "S" then evSched s kind aux
+        if who == "S" then evSched tick s kind aux
         else if who.startsWith "C" then
           match (who.drop 1).toString.toNat? with
           | some i => evClient s i kind aux
@@ -161,18 +166,19 @@ def report (s : Sys) : List String :=
 
 def simulate (st : St) : List String :=
   let s0 := init st.progs st.cbs
-  let (s, out) := st.evs.foldl procEv (s0, [])
+  let (s, out) := st.evs.foldl (procEv st.tick) (s0, [])
   out.reverse ++ report s
 
 def setNth {α} (l : List α) (i : Nat) (a : α) : List α := l.set i a
 
 def step (st : St) (t : List String) : St × List String :=
   match t with
-  | ["cfg", n, _mode, _seed, _stay, _spur] =>
-    match n.toNat? with
-    | some n => if 1 ≤ n ∧ n ≤ 3 then ({ n := n, progs := List.replicate n [], cbs := [], evs := [], ok := true }, [])
-                else (St.empty, ["bad-op"])
-    | none => (St.empty, ["bad-op"])
+  | "cfg" :: n :: _mode :: _seed :: _stay :: _spur :: rest =>
+    match n.toNat?, (match rest with | [] => some 0 | [t] => parseU64? t | _ => none) with
+    | some n, some tick =>
+      if 1 ≤ n ∧ n ≤ 3 then ({ n := n, progs := List.replicate n [], cbs := [], evs := [], ok := true, tick := tick }, [])
+      else (St.empty, ["bad-op"])
+    | _, _ => (St.empty, ["bad-op"])
   | "prog" :: i :: rest =>
     match i.toNat?, parseProg rest with
     | some i, some p => if i < 4 then ({ st with progs := st.progs.set i p }, []) else (st, ["bad-op"])
